@@ -212,7 +212,8 @@ def run_config(ctx, cfg):
                     vc.check("non-linear combination rejected when built: " + tag, False)
                 except ValueError:
                     vc.check("non-linear combination rejected when built: " + tag, True)
-            for tag, bad in (("str", "a"), ("None", None), ("list", [1.0]), ("complex", 1j), ("dict", {})):
+            for tag, bad in (("str", "a"), ("None", None), ("list", [1.0]), ("complex", 1j), ("dict", {}),
+                             ("numeric-looking str", "2"), ("numeric-looking bytes", b"3"), ("str 1e1", "1e1")):
                 for form, mk in (("x + bad", lambda: x + bad), ("bad + x", lambda: SBSum(bad, x)), ("x * bad", lambda: x * bad), ("bad * x", lambda: SBProd(bad, x))):
                     try:
                         mk()
